@@ -1,3 +1,4 @@
+import Rp2.Proofs.PipelineEngine
 import Rp2.Props.Tables.Types
 import Rp2.Proofs.PropsA
 import Rp2.Proofs.Props2
@@ -29,4 +30,23 @@ theorem each_once_in_full (ctx : Ctx) (es : List Event) (rem : Nat → Nat) (out
     running the real constructors — are the model's `isEarn`, `inOk`, `outOk` -/
 theorem type_table_agrees : Gen.types = Tables.allTypes.map Tables.modelRow := Tables.types_agree
 theorem transfer_taxed_iff_fee : Gen.intraType = TxType.move.name ∧ Gen.intraTaxableNoFee = false ∧ Gen.intraTaxableFee = true := Tables.intra_agree
+/-- **on the executable pipeline** (`computeFractions`): the reported fractions are the decoding of an engine run over exactly the
+    taxable events (`taxableEvents`, see `events_exact`) in which every event is covered in full, an income event yields exactly
+    one lot-less fraction of its full amount, and every other fraction is a positive piece of a lot; `decodeFracs` attaches to each
+    fraction the event itself, so it is reported under the event's own transaction type -/
+theorem pipeline_each_event_once_in_full (sched : List (Int × Method)) (ins : List InTx) (outs : List OutTx) (intras : List IntraTx) (fs : List Fraction)
+    (hord : SheetOrder ins) (hy : SameInstantSameYear (taxableEvents ins outs intras))
+    (h : computeFractions sched ins outs intras = .ok fs) :
+    ∃ es out, engineEvents sched (taxableEvents ins outs intras) = some es ∧
+      fs = decodeFracs (sortByTs (·.ts.us) ins) (taxableEvents ins outs intras) out ∧
+      (∀ j e, es[j]? = some e → total (out.filter (fun f => f.ev = j)) = e.amount) ∧
+      (∀ f ∈ out, ∃ e, es[f.ev]? = some e ∧ (e.earn → f = ⟨f.ev, none, e.amount⟩) ∧ (¬ e.earn → 0 < f.amt ∧ ∃ i, f.lot = some i)) := by
+  obtain ⟨es, out, h1, h2, _, h4, h5, _⟩ := computeFractions_sound sched ins outs intras fs hord hy h
+  refine ⟨es, out, h1, h2, h4, ?_⟩
+  intro f hf
+  obtain ⟨e, he, he1, he2⟩ := h5 f hf
+  exact ⟨e, he, he1, fun hne => let ⟨hp, i, hi, _⟩ := he2 hne; ⟨hp, i, hi⟩⟩
+/-- income is reported at its fiat value with zero cost basis: proceeds pro-rate `fiatWithFee` of the acquisition, cost is 0 -/
+theorem income_value_and_zero_cost (t : InTx) (amt : Int) :
+    (⟨t.toEv, none, amt⟩ : Fraction).cost = 0 ∧ (t.toEv).fiatTaxable = t.fiatWithFee := ⟨rfl, rfl⟩
 end Rp2.C03
